@@ -10,6 +10,7 @@ from engine.model import data as D
 E_COMPOSED = 'café'          # NFC
 E_DECOMPOSED = 'café'       # same name after normalisation
 LONG = 'L' * 256                   # NC_MAX_NAME
+GROWS = '\u0958'                   # 3 bytes as given, 6 bytes after NFC normalisation (U+0915 U+093C); E_DECOMPOSED shrinks from 6 to 5
 NAMES = ['a', 'b', 'ab', 'abc', E_COMPOSED]
 
 
@@ -46,9 +47,9 @@ def emit(c, ranks, o, model):
 def alphabet_for(thorough):
     def alphabet(m):
         A = []
-        dimnames = ['a', 'ab', E_COMPOSED] + ([E_DECOMPOSED, LONG] if thorough else [E_DECOMPOSED])
+        dimnames = ['a', 'ab', E_COMPOSED, 'abcde', 'abcd'] + ([E_DECOMPOSED, LONG] if thorough else [E_DECOMPOSED])
         for n in dimnames: A.append(dict(op='def_dim', name=n, len=2))
-        for n in ['a', 'b', 'abc'] + ([E_DECOMPOSED] if thorough else []):
+        for n in ['a', 'b', 'abc', 'abcde'] + ([E_DECOMPOSED] if thorough else []):
             A.append(dict(op='def_var', name=n, xtype=D.NC_INT, dims=[0] if m.dims else []))
         vs = [-1] + ([0] if m.vars else [])
         for v in vs:
@@ -66,9 +67,9 @@ def alphabet_for(thorough):
         if m.vars:
             A.append(dict(op='copy_att', v=-1, name='a', v2=0)); A.append(dict(op='copy_att', v=0, name='a', v2=-1)); A.append(dict(op='copy_att', v=-1, name='a', v2=-1))
             A.append(dict(op='copy_att', v=-1, name='ab', v2=0))
-            for nn in ['b', 'a', 'abc', 'q', 'abcd', E_DECOMPOSED]: A.append(dict(op='rename_var', v=0, name=nn))
+            for nn in ['b', 'a', 'abc', 'q', 'abcd', E_DECOMPOSED, GROWS]: A.append(dict(op='rename_var', v=0, name=nn))
         if m.dims:
-            for nn in ['b', 'a', 'ab', 'abc', E_DECOMPOSED]: A.append(dict(op='rename_dim', d=0, name=nn))
+            for nn in ['b', 'a', 'ab', 'abc', E_DECOMPOSED, GROWS]: A.append(dict(op='rename_dim', d=0, name=nn))
             if len(m.dims) > 1: A.append(dict(op='rename_dim', d=1, name='a'))
         A += [dict(op='enddef'), dict(op='redef'), dict(op='reopen')]
         return A
@@ -106,7 +107,7 @@ def main(tier=None):
     bfs.run(deadline=time.time() + (1700 if thorough else 200))
     ck.cov['distinct_nontrivial'] = ck.cov.get('states', 0)
     ck.cov['rule'] = ('BFS over def_dim/def_var/put_att (overwrite smaller/equal/larger, other type, zero length)/rename_dim/rename_var/rename_att/copy_att/del_att/enddef/redef/close+open with a name alphabet built to collide '
-                      '(hash table sizes 1, 2 and default via hints; started from the empty file and from a populated define-mode session with three attributes per object; composed vs decomposed UTF-8 of one NFC string; NC_MAX_NAME); after every transition the full inquiry sweep (objects, ids, order, names, types, lengths, values, '
+                      '(hash table sizes 1, 2 and default via hints; started from the empty file and from a populated define-mode session with three attributes per object; composed vs decomposed UTF-8 of one NFC string, names whose byte length shrinks or grows under normalisation renamed in data mode; NC_MAX_NAME); after every transition the full inquiry sweep (objects, ids, order, names, types, lengths, values, '
                       'lookup by name vs by id) is compared with the sequential model; data-mode changes and reopen are also checked in the decoded file header')
     ck.assumptions += ['depth bound %d' % bfs.maxdepth]
     runner.cleanup()
